@@ -18,12 +18,13 @@ fn mask_dates(w: &[u8]) -> Vec<u8> {
     let mut out = w.to_vec();
     let pat = b"date: ";
     let mut i = 0;
-    while i + pat.len() + 29 <= out.len() {
+    while i + pat.len() <= out.len() {
         if &out[i..i + pat.len()] == pat {
-            for b in &mut out[i + pat.len()..i + pat.len() + 29] {
+            let end = (i + pat.len() + 29).min(out.len());
+            for b in &mut out[i + pat.len()..end] {
                 *b = b'D';
             }
-            i += pat.len() + 29;
+            i = end;
         } else {
             i += 1;
         }
@@ -95,7 +96,21 @@ fn complete_requests(c: &Case, taken: usize) -> usize {
 /// offers an accepting socket and wakes pending handlers
 fn with_drain(c: &Case) -> Case {
     let mut d = c.clone();
-    for _ in 0..6 {
+    let waits: usize = c
+        .handlers
+        .iter()
+        .map(|h| {
+            h.iter()
+                .map(|a| match a {
+                    HAct::Respond(RespBody::Sized(b)) | HAct::Respond(RespBody::Stream(b)) => b.iter().filter(|x| matches!(x, BAct::Pend)).count(),
+                    HAct::Pend | HAct::Wait => 1,
+                    _ => 0,
+                })
+                .sum::<usize>()
+        })
+        .sum::<usize>()
+        + c.rounds.iter().map(|r| r.fl.iter().filter(|f| matches!(f, F::P)).count()).sum::<usize>();
+    for _ in 0..6 + waits {
         d.rounds.push(Round { add: 0, wr: vec![W::A(1 << 30); 4], hw: true, ..Default::default() });
     }
     d
@@ -139,7 +154,7 @@ fn oracle(c: &Case, out: &RunOut) -> Verdict {
         } else if last.produced > last.accepted && !sock_err {
             stalled = true;
             why = format!("stall: {} response bytes unflushed although the socket accepts", last.produced - last.accepted);
-        } else if eof && resp_done == last.started && last.started == complete {
+        } else if eof && resp_done == last.started && last.started == complete && last.body_open == 0 {
             why = "no termination: peer closed, every request answered and flushed, connection future still pending".into();
         }
     }
@@ -502,7 +517,7 @@ fn main() {
         }
     }
     if args.case.is_none() {
-        let n = args.n.unwrap_or(if args.thorough() { 1500 } else { 260 });
+        let n = args.n.unwrap_or(if args.thorough() { 1200 } else { 160 });
         let mut rng = Rng::new(args.seed);
         for i in 0..n {
             let mut r = rng.fork();
